@@ -28,7 +28,7 @@ func TestC02(t *testing.T) {
 	n := stats.N(400, 900)
 	st.Set("requested_checks", n)
 	stats.Check(t, n, 2, func(rt *rapid.T) {
-		w, l, sum := RunHistory(rt, st, HistOpts{Focus: []string{"C02"}, Features: GenFeatures, Steps: 25, Scripts: true, Reverts: true, Metadata: true, Reads: true, FinalReads: true, SecondLedger: true})
+		w, l, sum := RunHistory(rt, st, HistOpts{Focus: []string{"C02"}, Features: GenFeatures, Steps: 25, Scripts: true, Reverts: true, Metadata: true, Reads: true, FinalReads: true, SecondLedger: true, Bulks: true})
 		defer w.Close()
 		st.Case(sum.Key, sum.Commits >= 2 && sum.Failures >= 1 && sum.DryRuns >= 1, sampleHistory(l),
 			classesOf(sum)...)
